@@ -138,7 +138,7 @@ func checkC07(c *Ctx) {
 	c07Markers(c)
 	c07Siblings(c)
 	c07Names(c)
-	c07ServerInputs(c)
+	c07ServerInputs(c, "R07e")
 	c07Presence(c)
 }
 
@@ -400,13 +400,13 @@ func c07Names(c *Ctx) {
 }
 
 // c07ServerInputs: R07e.
-func c07ServerInputs(c *Ctx) {
+func c07ServerInputs(c *Ctx, rid string) {
 	r := c.R
 	tsf := c.P.Func("internal/tscommon", "TSScalarTypeForField")
 	for _, spec := range []struct{ fn, what string }{{"Generator.generateQueryParamField", "query parameter"}, {"Generator.generatePathParamMerge", "path parameter"}} {
 		fn := c.P.Func(pkgTSServer, spec.fn)
 		if fn == nil || tsf == nil {
-			r.Unres("R07e", spec.fn, "", "not found")
+			r.Unres(rid, spec.fn, "", "not found")
 			continue
 		}
 		decl := c.P.Decls[fn]
@@ -451,11 +451,11 @@ func c07ServerInputs(c *Ctx) {
 			return true
 		})
 		pos := c.P.Pos(decl.Pos())
-		r.Check(okSwitch, "R07e", spec.what+" conversion is selected by TSScalarTypeForField of the bound field", pos,
+		r.Check(okSwitch, rid, spec.what+" conversion is selected by TSScalarTypeForField of the bound field", pos,
 			spec.fn+" does not select the conversion with tscommon.TSScalarTypeForField (the function the interface declaration uses): a field whose declared type depends on an annotation (int64_encoding=NUMBER) is handed to the handler with another type")
-		r.Check(strings.Contains(arms["TSNumber"], "Number("), "R07e", spec.what+": number fields are converted with Number(…)", pos,
+		r.Check(strings.Contains(arms["TSNumber"], "Number("), rid, spec.what+": number fields are converted with Number(…)", pos,
 			fmt.Sprintf("%s: the arm for fields declared number emits %q: the handler receives a string where the request interface declares number", spec.fn, arms["TSNumber"]))
-		r.Check(strings.Contains(arms["TSBoolean"], `=== \"true\"`) || strings.Contains(arms["TSBoolean"], `=== "true"`), "R07e", spec.what+": boolean fields are converted with === \"true\"", pos,
+		r.Check(strings.Contains(arms["TSBoolean"], `=== \"true\"`) || strings.Contains(arms["TSBoolean"], `=== "true"`), rid, spec.what+": boolean fields are converted with === \"true\"", pos,
 			fmt.Sprintf("%s: the arm for fields declared boolean emits %q", spec.fn, arms["TSBoolean"]))
 	}
 }
